@@ -10,7 +10,12 @@
     A z3 task ties the patched capacity back to the live constants (table fits the header).
 (b) ``ShmSegment.allocate_and_write`` + ``_ShmSink.write`` (real bytecode) over a size-abstract
     Arrow model: every byte range stored into the segment lies inside the range that was
-    allocated for this batch.
+    allocated for this batch.  The column TYPE is structural and symbolic (plain / dictionary,
+    bare or nested in list-likes, structs, extension types): whether the writer will emit
+    dictionary messages is decided by the repository's own helpers (``_has_dictionary_columns``,
+    ``_type_contains_dictionary``, whatever allocate_and_write reaches) running un-stubbed on
+    that type tree, while the Arrow model emits them iff the tree really nests a dictionary.
+    Replay = real pyarrow batch of that type on a real POSIX segment between live neighbours.
 """
 
 from __future__ import annotations
